@@ -1,51 +1,15 @@
-(* C18 model, part 2: what lies around the per-class computation.
-
-   (1) The constructor Griffe PRESENTS for a class (Class.parameters = all_members["__init__"].parameters: the class' own
-       __init__ member, else the one of the first class of its MRO that has one) against the one CPython resolves
-       (cls.__init__ along __mro__, i.e. inspect.signature(cls)).
-   (2) The dataclasses extension as the STATEFUL machine it is: one extension object serves many on_package_loaded
-       events; _dataclass_parameters is memoised by functools.cache for the life of the process (keyed by the class
-       OBJECT), _del_members_annotated_as_initvar mutates a class after its __init__ was synthesised, the walk
-       (_apply_recursively) visits classes in member order (a subclass may come before or after its bases, which may
-       belong to a package loaded by an earlier event) and skips canonical paths already seen during the SAME event.
-       The machine takes the shape of the merging code (Model/C18_modes.v) and two flags that the code has at
-       (false, false); the other settings are the plausible-but-wrong variants (cache dropped at each event / processed
-       set kept on the extension), used only to show that the theorem is sensitive to them.
-   Executable definitions only. *)
+(* C18 model, part 4: the dataclasses extension as the STATEFUL machine it is.  One extension object serves many
+   on_package_loaded events; _dataclass_parameters is memoised by functools.cache for the life of the process (keyed by
+   the class OBJECT), _del_members_annotated_as_initvar mutates a class after its __init__ was synthesised, the walk
+   (_apply_recursively) visits classes in member order (a subclass may come before or after its bases, which may belong
+   to a package loaded by an earlier event) and skips canonical paths already seen during the SAME event.
+   The machine takes the shape of the merging code (Model/C18_modes.v) and two flags that the code has at (false, false);
+   the other settings are the plausible-but-wrong variants (memo dropped at each event / set of seen paths kept on the
+   extension), used only to show that the theorem is sensitive to them.  Executable definitions only. *)
 From Coq Require Import List Arith Bool ZArith String.
 From Verif Require Import Lib.Sexp Model.C18_dataclass Model.C18_modes.
 Import ListNotations.
 Open Scope list_scope. Open Scope nat_scope.
-
-(* ================= (1) the presented constructor ================= *)
-
-Fixpoint first_init (f : nat -> init_member) (l : list nat) : option (nat * init_member) :=
-  match l with
-  | [] => None
-  | j :: r => match f j with Absent => first_init f r | m => Some (j, m) end
-  end.
-
-Definition g_member_at (t : table) (j : nat) : init_member :=
-  match nth_error t j with Some b => g_init_member t b | None => Absent end.
-Definition py_member_at (t : table) (e : env) (j : nat) : init_member :=
-  match nth_error t j with Some b => py_init_member e j b | None => Absent end.
-
-(* (providing class, its __init__ member); None = no __init__ anywhere but object's *)
-Definition g_presented (t : table) (i : nat) (c : cls) : option (nat * init_member) :=
-  first_init (g_member_at t) (i :: c_mro c).
-Definition py_presented (t : table) (e : env) (i : nat) (c : cls) : option (nat * init_member) :=
-  first_init (py_member_at t e) (i :: c_mro c).
-
-(* the parameters after self; the hand-written __init__ of class j is `def __init__(self, q<j>)`, name 100 + j *)
-Definition hw_name (j : nat) : name := 100 + j.
-Definition presented_params (o : option (nat * init_member)) : list param :=
-  match o with
-  | Some (j, Handwritten) => [mkp (hw_name j) PK false]
-  | Some (_, Synth ps) => ps
-  | _ => []
-  end.
-
-(* ================= (2) the extension as a state machine ================= *)
 
 Record sstate := mkst {
   s_cache : list (nat * list gfld);      (* functools.cache of _dataclass_parameters: class object -> its entries *)
